@@ -7,6 +7,8 @@ pub mod c09;
 pub mod c10;
 pub mod c14;
 pub mod c15;
+pub mod c16;
+pub mod c17;
 
 pub fn all() -> Vec<Obl> {
     let mut l = Vec::new();
@@ -18,5 +20,7 @@ pub fn all() -> Vec<Obl> {
     c10::register(&mut l);
     c14::register(&mut l);
     c15::register(&mut l);
+    c16::register(&mut l);
+    c17::register(&mut l);
     l
 }
